@@ -7,6 +7,7 @@ Python ints/floats/bools/None/str stay native when concrete.  Symbolic scalars w
 Branching on a symbolic SBool (``if x > 0``) asks the current path context to *decide*, which is
 how both the interpreted repository code and the sidecar spec functions fork paths.
 """
+import os
 import z3
 from fractions import Fraction
 
@@ -292,17 +293,300 @@ def Max(a, b):
 # ---------------------------------------------------------------------------------------------
 # arithmetic with Python semantics
 
+def _monomials(z):
+    """z3 Int term -> list of (coef:int, atoms: sorted tuple of (ast id, term)) after sum-of-monomials expansion"""
+    z = z3.simplify(z, som=True)
+    terms = list(z.children()) if z3.is_add(z) else [z]
+    out = []
+    for t in terms:
+        coef = 1
+        atoms = []
+        stack = [t]
+        while stack:
+            u = stack.pop()
+            if z3.is_int_value(u):
+                coef *= u.as_long()
+            elif z3.is_mul(u):
+                stack.extend(u.children())
+            elif z3.is_app(u) and u.decl().kind() == z3.Z3_OP_UMINUS:
+                coef = -coef
+                stack.append(u.arg(0))
+            else:
+                atoms.append((u.get_id(), u))
+        atoms.sort(key=lambda x: x[0])
+        out.append((coef, atoms))
+    return out
+
+
+def _mono_term(coef, atoms):
+    t = z3.IntVal(coef)
+    for _, a in atoms:
+        t = t * a
+    return t
+
+
+def _nonneg_term(c, z):
+    """cheap syntactic check that a z3 Int term is >= 0 (sound, incomplete)"""
+    if z3.is_int_value(z):
+        return z.as_long() >= 0
+    if z.get_id() in c.nonneg_ids:
+        return True
+    if z3.is_mul(z) or z3.is_add(z):
+        return all(_nonneg_term(c, ch) for ch in z.children())
+    if z3.is_app(z) and z.decl().kind() in (z3.Z3_OP_IDIV, z3.Z3_OP_MOD):
+        return z.decl().kind() == z3.Z3_OP_MOD and _pos_term(c, z.arg(1)) or (_nonneg_term(c, z.arg(0)) and _pos_term(c, z.arg(1)))
+    return False
+
+
+def _pos_term(c, z):
+    if z3.is_int_value(z):
+        return z.as_long() > 0
+    if z.get_id() in c.pos_ids:
+        return True
+    if z3.is_mul(z):
+        return all(_pos_term(c, ch) for ch in z.children())
+    if z3.is_add(z):
+        ch = z.children()
+        return all(_nonneg_term(c, x) for x in ch) and any(_pos_term(c, x) for x in ch)
+    return False
+
+
+def _consts_of(z, acc=None):
+    acc = {} if acc is None else acc
+    stack = [z]
+    seen = set()
+    while stack:
+        t = stack.pop()
+        if t.get_id() in seen:
+            continue
+        seen.add(t.get_id())
+        if z3.is_const(t) and t.decl().kind() == z3.Z3_OP_UNINTERPRETED:
+            acc[t.get_id()] = t
+        stack.extend(t.children())
+    return acc
+
+
+def _expand_defs(c, z, keep=()):
+    """replace let-named locals by their definitions (except those in `keep`, which must stay atomic)"""
+    for _ in range(6):
+        cs = _consts_of(z)
+        pairs = [(c.defs[i][0], c.defs[i][1]) for i in cs if i in c.defs and i not in keep]
+        if not pairs:
+            return z
+        z = z3.substitute(z, *pairs)
+    return z
+
+
+def _divisible(coef, atoms, bc, batoms):
+    """monomial coef*atoms divisible by monomial bc*batoms?  -> cofactor (coef, atoms) or None"""
+    if bc == 0 or coef % bc != 0:
+        return None
+    left = list(atoms)
+    for bi, _ in batoms:
+        for j, (i, _) in enumerate(left):
+            if i == bi:
+                left.pop(j)
+                break
+        else:
+            return None
+    return coef // bc, left
+
+
+def prove_lt(c, rest, b, depth=0):
+    """Sound, incomplete procedure for  0 <= rest < b  (b a positive monomial), by the mixed-radix lemma
+         0 <= t <= X-1  and  0 <= r < M   ==>   0 <= t*M + r < X*M
+    applied recursively, with linear leaf queries to the solver.  Nonlinear solvers are bad at exactly this
+    pattern, which is what all block/offset arithmetic of the repository consists of.  A proved bound is added
+    to the path condition (it is a consequence of it)."""
+    rest = z3.simplify(rest)
+    b = z3.simplify(b)
+    if z3.is_int_value(rest) and z3.is_int_value(b):
+        return 0 <= rest.as_long() < b.as_long()
+    if depth == 0:
+        bm0 = _monomials(b)
+        if len(bm0) == 1:
+            rest = z3.simplify(_expand_defs(c, rest, keep={i for i, _ in bm0[0][1]}))
+    if c.known_fast(z3.And(rest >= 0, rest < b)):
+        return True
+    if depth > 5:
+        return False
+    bm = _monomials(b)
+    if len(bm) != 1 or bm[0][0] <= 0:
+        return False
+    bc, batoms = bm[0]
+    rm = _monomials(rest)
+    for idx in range(len(batoms)):
+        X = batoms[idx][1]
+        Matoms = batoms[:idx] + batoms[idx + 1:]
+        M = _mono_term(bc, Matoms)
+        t = z3.IntVal(0)
+        r2 = z3.IntVal(0)
+        any_t = False
+        for coef, atoms in rm:
+            cof = _divisible(coef, atoms, bc, Matoms)
+            if cof is not None:
+                t = t + _mono_term(cof[0], cof[1])
+                any_t = True
+            else:
+                r2 = r2 + _mono_term(coef, atoms)
+        if not any_t:
+            continue
+        t = z3.simplify(t)
+        r2 = z3.simplify(r2)
+        if not c.known_fast(z3.And(t >= 0, t <= X - 1)):
+            continue
+        if (z3.is_int_value(r2) and r2.as_long() == 0) or prove_lt(c, r2, M, depth + 1):
+            c.assume_raw(z3.And(rest >= 0, rest < b))
+            return True
+    return False
+
+
+def _split_by(zterm, bc, batoms):
+    Q = z3.IntVal(0)
+    rest = z3.IntVal(0)
+    for coef, atoms in _monomials(zterm):
+        cof = _divisible(coef, atoms, bc, batoms)
+        if cof is not None:
+            Q = Q + _mono_term(cof[0], cof[1])
+        else:
+            rest = rest + _mono_term(coef, atoms)
+    return z3.simplify(Q), z3.simplify(rest)
+
+
+def _div_const(za, b):
+    """floor(za / b) for a concrete b > 0 in canonical form: monomials whose coefficient is a multiple of b are
+    divided exactly; (x div a) div b is rewritten to x div (a*b)  (valid for positive a, b)"""
+    Q = z3.IntVal(0)
+    rest = z3.IntVal(0)
+    for coef, atoms in _monomials(za):
+        if coef % b == 0 and (atoms or coef == 0):
+            Q = Q + _mono_term(coef // b, atoms)
+        else:
+            rest = rest + _mono_term(coef, atoms)
+    Q = z3.simplify(Q)
+    rest = z3.simplify(rest)
+    if z3.is_int_value(rest):
+        return z3.simplify(Q + z3.IntVal(rest.as_long() // b))
+    # drop quotient atoms (x div a) that are provably zero, then cancel the gcd of coefficients and divisor
+    if CUR is not None:
+        mons = _monomials(rest)
+        kept = []
+        for coef, atoms in mons:
+            zero = False
+            for _, at in atoms:
+                if z3.is_app(at) and at.decl().kind() == z3.Z3_OP_IDIV and z3.is_int_value(at.arg(1)) and at.arg(1).as_long() > 0:
+                    if CUR.known_fast(z3.And(at.arg(0) >= 0, at.arg(0) < at.arg(1))):
+                        zero = True
+                        break
+            if not zero:
+                kept.append((coef, atoms))
+        if len(kept) != len(mons):
+            rest = z3.simplify(sum([_mono_term(cf, at) for cf, at in kept], z3.IntVal(0)))
+            if z3.is_int_value(rest):
+                return z3.simplify(Q + z3.IntVal(rest.as_long() // b))
+        import math
+        g = b
+        for coef, atoms in kept:
+            g = math.gcd(g, abs(coef))
+        if g > 1 and kept:
+            rest = z3.simplify(sum([_mono_term(cf // g, at) for cf, at in kept], z3.IntVal(0)))
+            b = b // g
+            if b == 1:
+                return z3.simplify(Q + rest)
+    if z3.is_app(rest) and rest.decl().kind() == z3.Z3_OP_IDIV and z3.is_int_value(rest.arg(1)) and rest.arg(1).as_long() > 0:
+        return z3.simplify(Q + rest.arg(0) / z3.IntVal(rest.arg(1).as_long() * b))
+    return z3.simplify(Q + rest / z3.IntVal(b))
+
+
 def _div_terms(a, b):
     """floor quotient and remainder (Python semantics) of ints a,b as z3 terms, b != 0 assumed.
-    Concrete positive divisor: z3's native div/mod (Euclidean == floor).  Otherwise fresh
-    q, r with the defining constraints added to the path condition (works better for NIA)."""
+    Concrete positive divisor: z3's native div/mod (Euclidean == floor).
+    Symbolic divisor known positive and a single monomial: exact polynomial division first
+    ( a = b*Q + rest  =>  a//b = Q + rest//b ), so mixed-radix expressions like (k*C + j)//C collapse to k
+    when 0 <= j < C is known.  Otherwise fresh q, r with the defining constraints on the path condition."""
     za, zb = zint(a), zint(b)
     if isinstance(b, int) and not isinstance(b, bool) and b > 0:
-        return za / zb, za % zb
+        if b == 1:
+            return za, z3.IntVal(0)
+        q = _div_const(za, b)
+        # remainder expressed through the quotient (canonical form: only `div` atoms of the original variables)
+        return q, z3.simplify(za - b * q)
     c = cur()
     key = ('div', za.sexpr(), zb.sexpr())
     if key in c.divcache:
         return c.divcache[key]
+    positive = _pos_term(c, z3.simplify(zb))
+    if not positive and c.known(mk_bool(zb > 0)):
+        positive = True
+    if positive:
+        bm = _monomials(zb)
+        if len(bm) == 1 and bm[0][0] > 0:
+            bc, batoms = bm[0]
+
+            def split(zterm):
+                Q = z3.IntVal(0)
+                rest = z3.IntVal(0)
+                for coef, atoms in _monomials(zterm):
+                    cof = _divisible(coef, atoms, bc, batoms)
+                    if cof is not None:
+                        Q = Q + _mono_term(cof[0], cof[1])
+                    else:
+                        rest = rest + _mono_term(coef, atoms)
+                return z3.simplify(Q), z3.simplify(rest)
+            # first with let-named locals kept atomic, then with their definitions expanded
+            cands = [za]
+            za2 = _expand_defs(c, za, keep={i for i, _ in batoms})
+            if za2 is not za:
+                cands.append(za2)
+            last = None
+            for cand in cands:
+                Q, rest = split(cand)
+                last = (Q, rest)
+                if z3.is_int_value(rest) and rest.as_long() == 0:
+                    res = (Q, z3.IntVal(0))
+                    c.divcache[key] = res
+                    return res
+                if prove_lt(c, rest, zb):
+                    res = (Q, rest)
+                    c.divcache[key] = res
+                    return res
+            # factor a constant out of the divisor:  a // (K*b') = (a // b') // K
+            if bc > 1 and not getattr(c, '_in_factor_div', False):
+                c._in_factor_div = True
+                try:
+                    K = 2
+                    while K <= bc:
+                        if bc % K == 0:
+                            b2 = _mono_term(bc // K, batoms)
+                            for cand in cands:
+                                Q2, rest2 = _split_by(cand, bc // K, batoms)
+                                ok = (z3.is_int_value(rest2) and rest2.as_long() == 0) or prove_lt(c, rest2, b2)
+                                if ok:
+                                    qq = _div_const(Q2, K)
+                                    res = (qq, z3.simplify(za - zb * qq))
+                                    c.divcache[key] = res
+                                    return res
+                        K *= 2
+                finally:
+                    c._in_factor_div = False
+            Q, rest = last
+            if os.environ.get('PYVC_DEBUG_DIV'):
+                print('DIV-FRESH rest=', rest, ' b=', zb, ' guards=', [str(g)[:80] for g in c.guards])
+            q = c.fresh_int('q')
+            r = c.fresh_int('r')
+            c.assume_raw(rest == zb * q + r)
+            c.assume_raw(z3.And(r >= 0, r < zb))
+            c.nonneg_ids.add(r.get_id())
+            res = (z3.simplify(Q + q), r)
+            c.divcache[key] = res
+            return res
+        q = c.fresh_int('q')
+        r = c.fresh_int('r')
+        c.assume_raw(za == zb * q + r)
+        c.assume_raw(z3.And(r >= 0, r < zb))
+        c.nonneg_ids.add(r.get_id())
+        c.divcache[key] = (q, r)
+        return q, r
     q = c.fresh_int('q')
     r = c.fresh_int('r')
     # Python: a == b*q + r, 0 <= r < b (b>0) or b < r <= 0 (b<0)
@@ -464,6 +748,18 @@ def slice_bounds(sl, n):
     for b in (sl.start, sl.stop):
         if is_floatlike(b):
             raise PyRaise('TypeError', 'slice indices must be integers')
+
+    # bounds that are provably inside [0, n] and ordered need no clamping (keeps terms small)
+    st, sp = sl.start, sl.stop
+    if (st is None or is_intlike(st)) and (sp is None or is_intlike(sp)) and (is_sym(st) or is_sym(sp) or is_sym(n)):
+        lo0 = 0 if st is None else st
+        hi0 = n if sp is None else sp
+        c = cur()
+        if c.known(And(ops_cmp('>=', lo0, 0), ops_cmp('<=', lo0, hi0), ops_cmp('<=', hi0, n))):
+            return lo0, hi0
+        if is_sym(n) and c.known_fast(zbool(And(ops_cmp('>=', lo0, 0), ops_cmp('<', lo0, hi0)))) \
+                and prove_lt(c, zint(hi0) - 1, zint(n)):
+            return lo0, hi0
 
     def clamp(v, default):
         if v is None:
